@@ -196,6 +196,10 @@ func init() {
 						ok = false
 					}
 				}
+				if !ok && len(calls) == 0 && runsThroughStepTable(c, ld, c.MustFn(s.loader)) {
+					r.ok(key, "load", c.pos(ld.Pos()), "load() runs "+s.loader+" as one entry of a table of steps that it walks completely unless a step fails")
+					continue
+				}
 				if ok {
 					r.ok(key, "load", c.pos(ld.Pos()), "load() always runs "+s.loader)
 				} else {
@@ -904,4 +908,146 @@ func tupleFirst(call *ssa.Call) ssa.Value {
 		}
 	}
 	return call
+}
+
+// runsThroughStepTable: fn puts the method value of step into a local table
+// (array of funcs or of structs with a func field), walks the whole table in
+// a loop that calls each entry, and leaves that loop early only with a
+// failure: every successful return of fn is reached through the loop's
+// normal exit.
+func runsThroughStepTable(c *Ctx, fn, step *ssa.Function) bool {
+	var root func(v ssa.Value) ssa.Value
+	root = func(v ssa.Value) ssa.Value {
+		for d := 0; d < 8; d++ {
+			switch x := v.(type) {
+			case *ssa.FieldAddr:
+				v = x.X
+			case *ssa.IndexAddr:
+				v = x.X
+			case *ssa.Field:
+				v = x.X
+			case *ssa.Slice:
+				v = x.X
+			case *ssa.UnOp:
+				if x.Op != token.MUL {
+					return v
+				}
+				v = x.X
+			default:
+				return v
+			}
+		}
+		return v
+	}
+	// a local struct that is copied as a whole into / out of a table element stands for the table
+	plainRoot := root
+	root = func(v ssa.Value) ssa.Value {
+		v = plainRoot(v)
+		for d := 0; d < 3; d++ {
+			a, ok := v.(*ssa.Alloc)
+			if !ok || a.Referrers() == nil {
+				return v
+			}
+			next := v
+			for _, ref := range *a.Referrers() {
+				switch x := ref.(type) {
+				case *ssa.UnOp:
+					// *a stored into table[i]
+					if x.Op == token.MUL && x.Referrers() != nil {
+						for _, r2 := range *x.Referrers() {
+							if st, ok := r2.(*ssa.Store); ok && st.Val == ssa.Value(x) {
+								if _, isIdx := st.Addr.(*ssa.IndexAddr); isIdx {
+									next = plainRoot(st.Addr)
+								}
+							}
+						}
+					}
+				case *ssa.Store:
+					// a = *(&table[i])
+					if x.Addr == ssa.Value(a) {
+						if ld, ok := x.Val.(*ssa.UnOp); ok && ld.Op == token.MUL {
+							if _, isIdx := ld.X.(*ssa.IndexAddr); isIdx {
+								next = plainRoot(ld.X)
+							}
+						}
+					}
+				}
+			}
+			if next == v {
+				return v
+			}
+			v = next
+		}
+		return v
+	}
+	// the table the step is stored in
+	var table ssa.Value
+	var stored *ssa.Store
+	for _, b := range fn.Blocks {
+		for _, ins := range b.Instrs {
+			st, ok := ins.(*ssa.Store)
+			if !ok {
+				continue
+			}
+			mc, ok := st.Val.(*ssa.MakeClosure)
+			if !ok {
+				continue
+			}
+			for _, f := range unwrapBound(mc.Fn.(*ssa.Function)) {
+				if f == step {
+					table, stored = root(st.Addr), st
+				}
+			}
+		}
+	}
+	if table == nil {
+		return false
+	}
+	for _, h := range fn.Blocks {
+		if !isLoopHeader(h) || !(stored.Block() == h || stored.Block().Dominates(h)) {
+			continue
+		}
+		body := loopBody(h)
+		called := false
+		for b := range body {
+			for _, ins := range b.Instrs {
+				call, ok := ins.(*ssa.Call)
+				if !ok || call.Call.IsInvoke() || call.Call.StaticCallee() != nil {
+					continue
+				}
+				if _, isB := call.Call.Value.(*ssa.Builtin); isB {
+					continue
+				}
+				if root(call.Call.Value) == table {
+					called = true
+				}
+			}
+		}
+		if !called {
+			continue
+		}
+		// the loop ranges over the table: its bound is the table's length
+		ifi, ok := h.Instrs[len(h.Instrs)-1].(*ssa.If)
+		if !ok {
+			continue
+		}
+		bin, ok := ifi.Cond.(*ssa.BinOp)
+		if !ok || bin.Op != token.LSS {
+			continue
+		}
+		if x, name, ok := lenOrCapOf(bin.Y); !ok || name != "len" || root(x) != table {
+			continue
+		}
+		// success only through the loop's normal exit
+		okAll := true
+		for _, rb := range successReturns(fn) {
+			if body[rb] || !(h.Succs[1] == rb || h.Succs[1].Dominates(rb)) {
+				okAll = false
+			}
+		}
+		if okAll && len(successReturns(fn)) > 0 {
+			return true
+		}
+	}
+	return false
 }
